@@ -560,194 +560,49 @@ def search(ck, seeds=None):
     return S
 
 
+def directed(ck, bad, suspects):
+    """the correspondence broke: look for a concrete failing input of the real code on and around the disagreeing inputs
+    (many renumberings / rebuilds / re-spellings of the molecules involved, and the fixed seed list at higher volume)"""
+    rng = random.Random(f'{ck.seed}:c01-directed')
+    S = Searcher(ck)
+    seeds = [mt[2] for mt in bad if mt and mt[0] == 'mol' and mt[2]] + list(suspects)
+    seen = []
+    for smi in seeds:
+        if smi not in seen:
+            seen.append(smi)
+    for smi in seen[:40] + SPECIAL:
+        S.one(smi, rng, n_renum=12, n_spell=6, n_rdkit=4)
+    for smi in corpus.sample(corpus.lipo(), 200, ck.seed, 'c01-directed'):
+        S.one(smi, rng, n_renum=4, n_spell=2, n_rdkit=2)
+
+
 def run(ck):
-    search(ck)
-
-
-# =============================================================================================================
-# correspondence: real code vs the Coq model (exact ints)
-
-COQ_EXTRA = '''From Model Require Import PyHash Graph Morgan.
-Definition iadj_eqb (a b : iadj) : bool := list_eqb (pair_eqb Z.eqb (list_eqb (pair_eqb Z.eqb Z.eqb))) a b.
-(* _morgan on raw dicts: labels before the ranking, then the result *)
-Definition mg_ok (atoms : labels) (adj : iadj) (exp_labels exp : pyres labels) : bool :=
-  res_eqb (py_morgan_labels atoms adj) exp_labels && res_eqb (py_morgan atoms adj) exp.
-(* a molecule: hash(atom) for every atom, int_adjacency, atoms_order *)
-Definition ao_ok (rings : list Z) (g : mol) (hashes : labels) (ia : iadj) (exp : pyres labels) : bool :=
-  labels_eqb (atom_labels hash_ztuple (fun n => zmem n rings) g) hashes && iadj_eqb (int_adjacency g) ia &&
-  res_eqb (py_atoms_order rings g) exp.
-(* the same with the labels of the last refinement round *)
-Definition aol_ok (rings : list Z) (g : mol) (exp_labels exp : pyres labels) : bool :=
-  res_eqb (py_morgan_labels (atom_labels hash_ztuple (fun n => zmem n rings) g) (int_adjacency g)) exp_labels &&
-  res_eqb (py_atoms_order rings g) exp.
-'''
-
-
-def zmap(d):
-    return lst([tup(zraw(k), zraw(v)) for k, v in d.items()])
-
-
-def adj_term(bonds):
-    return lst([tup(zraw(n), zmap(ms)) for n, ms in bonds.items()])
-
-
-class MorganSpy:
-    """observes the labels of the last refinement round: they are the argument of the one `sorted(..., key=...)` call of
-    `_morgan` (the ranking); installed as a module global of chython.algorithms.morgan, removed afterwards"""
-
-    def __enter__(self):
-        import chython.algorithms.morgan as mg
-        self.mg = mg
-        self.last = None
-        self.rounds = 0
-
-        def spy_sorted(it, key=None):
-            if key is None:
-                self.rounds += 1
-                return sorted(it)
-            it = list(it)
-            self.last = it
-            return sorted(it, key=key)
-        mg.sorted = spy_sorted
-        return self
-
-    def __exit__(self, *a):
-        del self.mg.sorted
-
-    def call(self, atoms, bonds):
-        """returns (result term, labels term, result value or None)"""
-        self.last = None
-        try:
-            r = self.mg._morgan(dict(atoms), {n: dict(ms) for n, ms in bonds.items()})
-        except KeyError:
-            return 'Err KeyError', 'Err KeyError', None
-        except Exception as e:  # the model knows no other outcome
-            return 'Err OtherError', 'Err OtherError', None
-        return f'Ok {zmap(r)}', f'Ok {lst([tup(zraw(k), zraw(v)) for k, v in self.last])}', r
-
-
-def shuffled_view(m, rng):
-    """the molecule with the items of _atoms, _bonds and of every neighbour dict in another insertion order (raw dicts of a
-    copy: enough for Morgan, which does not look at stereo)"""
-    c = m.copy()
-    ks = list(c._atoms)
-    rng.shuffle(ks)
-    c._atoms = {n: c._atoms[n] for n in ks}
-    ks = list(c._bonds)
-    rng.shuffle(ks)
-    nb = {}
-    for n in ks:
-        ms = list(c._bonds[n])
-        rng.shuffle(ms)
-        nb[n] = {x: c._bonds[n][x] for x in ms}
-    c._bonds = nb
-    c.__dict__.clear()
-    return c
-
-
-def mol_case(spy, m, with_labels):
-    ring = [n for n, a in m.atoms() if a.in_ring]
-    hashes = {n: hash(a) for n, a in m.atoms()}
-    ia = m.int_adjacency
-    m.__dict__.pop('atoms_order', None)
-    spy.last = None
-    ao = m.atoms_order
-    exp = f'(Ok {zmap(ao)})'
-    if with_labels and len(m) > 1:
-        labels = f'(Ok {lst([tup(zraw(k), zraw(v)) for k, v in spy.last])})'
-        return f'aol_ok {lst(ring, zraw)} {mol_term(m)} {labels} {exp}', ao
-    return f'ao_ok {lst(ring, zraw)} {mol_term(m)} {zmap(hashes)} {adj_term(ia)} {exp}', ao
-
-
-def raw_dict_cases(spy, rng, count):
-    """_morgan on raw dicts: well-formed random graphs with few initial colours, and malformed ones (missing keys, extra
-    keys, empty, asymmetric adjacency, huge / negative labels)"""
-    out = []
-    for i in range(count):
-        n = rng.randint(0, 8)
-        keys = rng.sample(range(-3, 40), n)
-        big = rng.random() < .3
-        atoms = {k: (rng.choice([-(1 << 62), (1 << 61) - 1, (1 << 61) - 2, -1, -2, 1 << 63, 0, 7]) if big else rng.randint(1, 3)) for k in keys}
-        bonds = {k: {} for k in keys}
-        for a, c in itertools.combinations(keys, 2):
-            if rng.random() < .35:
-                o = rng.choice([1, 1, 2, 3, 4, 8])
-                bonds[a][c] = o
-                bonds[c][a] = o
-        kind = 'wf'
-        r = rng.random()
-        if r < .12 and keys:          # a neighbour that is not an atom -> KeyError
-            bonds[rng.choice(keys)][99] = 1
-            kind = 'ghost-neighbour'
-        elif r < .24 and keys:        # an adjacency row that is not an atom -> KeyError
-            bonds[77] = {}
-            kind = 'ghost-row'
-        elif r < .36 and keys:        # an atom without adjacency row: it silently disappears after round 1
-            del bonds[rng.choice(keys)]
-            kind = 'missing-row'
-        elif r < .44 and keys:        # asymmetric adjacency
-            a = rng.choice(keys)
-            for c in list(bonds[a]):
-                del bonds[a][c]
-                break
-            kind = 'asymmetric'
-        elif r < .5:
-            ks = list(bonds)
-            rng.shuffle(ks)
-            bonds = {k: bonds[k] for k in ks}
-            kind = 'row-order'
-        res, labels, _ = spy.call(atoms, bonds)
-        out.append((f'mg_ok {zmap(atoms)} {adj_term(bonds)} ({labels}) ({res})', ('raw', kind, atoms, bonds, res)))
-    return out
-
-
-def correspondence(ck):
-    from chython import smiles
-    rng = random.Random(f'{ck.seed}:c01-corr')
-    quick = ck.tier == 'quick'
-    cases, meta = [], []
-    suspects = []
-    pool = SPECIAL + GAP_EXAMPLES + corpus.sample(corpus.lipo(), 110 if quick else 1200, ck.seed, 'c01-corr')
-    mols = []
-    for smi in pool:
-        try:
-            m = smiles(smi)
-        except Exception:
-            continue
-        mols.append((smi, m))
-    for m in small_molecules(rng, 120 if quick else 1500):
-        mols.append((format(m, 'h'), m))
-    with MorganSpy() as spy:
-        for c, mt in raw_dict_cases(spy, rng, 400 if quick else 4000):
-            cases.append(c)
-            meta.append(mt)
-            ck.case(mt, nontrivial=mt[4].startswith('Ok') and len(mt[2]) > 1)
-            ck.count(f'corr:raw:{mt[1]}:{"Ok" if mt[4].startswith("Ok") else mt[4]}')
-        from chython import MoleculeContainer
-        for smi, m in [('', MoleculeContainer())] + mols:
-            variants = [('as-read', m)]
-            if len(m) > 1:
-                variants.append(('renumbered', corpus.renumber(m, rng)))
-                variants.append(('shuffled', shuffled_view(corpus.renumber(m, rng), rng)))
-            ref = None
-            for i, (how, v) in enumerate(variants):
-                c, ao = mol_case(spy, v, with_labels=(i == 1))
-                cases.append(c)
-                meta.append(('mol', how, smi, dict(v.atoms_order)))
-                ck.case(('corr', smi, how, tuple(v._atoms)), nontrivial=len(v) > 2)
-                ck.count(f'corr:mol:{how}')
-                cls = sorted(ao.values())
-                if ref is None:
-                    ref = cls
-                elif cls != ref:
-                    suspects.append(smi)
-            ck.count(f'corr:mol:atoms<={min(60, -(-len(m) // 10) * 10)}')
-            ck.count('corr:mol:classes-discrete' if len(set(m.atoms_order.values())) == len(m) else 'corr:mol:classes-tied')
-    ok, failing, log = coqcases.run_cases('c01', 'PyHash', cases, extra=COQ_EXTRA, shard=60)
-    ck.oblige('correspondence: hash(atom), int_adjacency, _morgan (labels of the last round, result, KeyError), atoms_order == Coq model '
-              '(exact ints, CPython tuple hash model)', ok and not failing, 'correspondence', log or repr([meta[i] for i in failing[:5]]))
-    ck.extra['correspondence_cases'] = len(cases)
-    ck.sample({'model_call': cases[0][:600], 'meta': repr(meta[0])[:300]})
-    ck.sample({'model_call': cases[-1][:600], 'meta': repr(meta[-1])[:300]})
-    bad = [meta[i] for i in failing]
-    return ok and not failing, bad, log, suspects
+    ck.trusted += ['correspondence runner harness/checks/C01.py + harness/coqcases.py + harness/coqmol.py (prints live molecules as Coq terms)',
+                   'CachedMethods shim harness/boot.py', 'CPython 3.12.1', 'Coq primitive 63-bit integers under vm_compute (model/MorganFast.v)',
+                   'RDKit 2026.3 and the own colour-refinement oracle (search only)']
+    ck.assumptions += [
+        'theorems are about coq/model/Morgan.v (hand-written model of _morgan / atoms_order / Element.__hash__ / Bond.__hash__), for every '
+        'hash function h; tie = exact correspondence with h := CPython tuple hash (Uint63 implementation hash63, also compared with '
+        'PyHash.hash_ztuple)',
+        'ring membership (atom.in_ring) is an input of the model (ring perception is C06)',
+        'the stereo refinement _chiral_morgan and the writer _smiles are not covered by C01 theorems beyond the writer lemmas listed in '
+        'props/C01.v: search only (writer correspondence is part of C02)',
+        'canonical string / hash of str are opaque in the eq/hash theorems']
+    ck.extra['rule'] = (
+        'correspondence: random raw dicts for _morgan (well-formed, ghost neighbours/rows, missing rows, asymmetric, boundary labels), every '
+        'molecule of a fixed list + corpus sample + random small molecules built through the API, each as read, renumbered (labels of the last '
+        'round compared too) and with shuffled insertion order; random int tuples for the hash; non-trivial = result is Ok on more than '
+        '2 atoms. search: each molecule renumbered x2, rebuilt through add_atom/add_bond/add_*_stereo in another order (Kekule form and '
+        'after thiele), re-spelled by format(m,"r") x2 and by RDKit (aromatic and Kekule spelling, kekule+thiele on both sides) -> str, ==, '
+        'hash; atoms_order against an own exact colour refinement; non-trivial = more than one atom. Members of the documented gap classes '
+        '(own symmetry oracle) are judged on the stereo-free string only; the undocumented bond-order-tie class is a recorded finding.')
+    proved = common.standard_proof_steps(ck, translators=[], extra_targets=['model/MorganFast.vo'])
+    tied, bad, log, suspects = correspondence(ck)
+    S = search(ck)
+    if not tied or suspects:
+        directed(ck, bad, suspects)
+        if not tied:
+            ck.unchecked('correspondence Morgan model vs chython/algorithms/morgan.py (+ Element.__hash__, Bond.__hash__)', log[-1500:],
+                         [repr(x)[:400] for x in bad[:20]])
+    ck.extra['proved'] = proved
+    ck.extra['tied'] = tied
